@@ -349,8 +349,11 @@ class Ctx:
         ev = {'property_id': self.pid, 'tier': self.tier, 'seed': int(self.seed), 'level': level,
               'coverage': cov, 'assumptions': self.assumptions, 'wall_s': round(wall, 2),
               'violations': len(self.new_violations)}
-        EVIDENCE.mkdir(exist_ok=True)
-        (EVIDENCE / f'{self.pid}.json').write_text(json.dumps(ev, indent=1, default=str))
+        # checks beyond the listed properties (ids not starting with C: growth of the specification) keep their
+        # evidence apart from the evidence files MANIFEST.json names
+        evdir = EVIDENCE if self.pid.startswith('C') or os.environ.get('VERIF_EVIDENCE_DIR') else VERIF / 'evidence_extra'
+        evdir.mkdir(exist_ok=True)
+        (evdir / f'{self.pid}.json').write_text(json.dumps(ev, indent=1, default=str))
         shutil.rmtree(self.scratch, ignore_errors=True)
         return 1 if self.new_violations else 0
 
